@@ -136,3 +136,68 @@ def run(ctx):
         r.fail('descriptor.matrix stores', func='@liberasurecode_rs_vand_init', sig=f'matrix stored in {sorted({f.name for f, _ in mstores})}', loc=(mstores[0][1].loc if mstores else ''),
                msg=f'the descriptor\'s matrix pointer is stored {len(mstores)} times in {sorted({f.name for f, _ in mstores})}')
     r.require_min(4)
+    # ---------------- R04e matrix walks cover whole rows / columns
+    r = ctx.rule('R04e', 'generator construction: every row walk over the matrix starts at column 0 and visits k columns; helper walks run their count parameter',
+                 'a normalisation loop that skips column 0 leaves one generator entry unnormalised: parity bytes differ from every other build, old stripes decode wrongly')
+    from ..poly import PolyCtx, Poly
+    from ..loops import loops_of, affine_in_t
+    rsm = [m for m in P.mods if m.src == 'src/builtin/rs_vand/liberasurecode_rs_vand.c'][0]
+    def strip_multiples(p, atom):
+        return Poly({k_: v for k_, v in p.items() if atom not in k_})
+    for fname, katom in (('@make_systematic_matrix', 'arg0'),):
+        mf = rsm.functions.get(fname)
+        if mf is None:
+            raise AnalysisBroken(f'anchor vanished: {fname}')
+        pcm = PolyCtx(P, mf)
+        K = Poly.atom(katom)
+        nw = 0
+        for L in loops_of(P, mf, pcm):
+            inner = {b for L2 in loops_of(P, mf, pcm) if L2.header is not L.header and L2.body < L.body for b in L2.body}
+            for ld in [i for b in L.body if b not in inner for i in b.insts if i.op == 'load' and i.ty == 'i32']:
+                pt = L.ptr_at_iteration(*pcm.ptr(ld.ops[0]))
+                if pt is None or not pt[0].startswith('@create_non_systematic_vand_matrix'):
+                    continue
+                ab = affine_in_t(pt[1])
+                if ab is None or ab[1] != Poly.const(4):
+                    continue                      # diagonal / column walks are not row walks
+                hg = [g_ for g_ in L.guards() if g_.block is L.header]
+                T = L.trip(hg[0]) if len(hg) == 1 else None
+                a4 = Poly({k_: v // 4 for k_, v in ab[0].items()}) if all(v % 4 == 0 for v in ab[0].values()) else None
+                nw += 1
+                inst = f'{fname[1:]}: row walk at line {ld.line}'
+                if T is None or a4 is None:
+                    r.undecided(inst, loc=ld.loc, msg=f'start {ab[0]}, trip {T}')
+                    continue
+                col0 = strip_multiples(a4, katom)
+                # enclosing-loop variables multiply k in the row base; what is left is the first column
+                if col0.is_zero() and T == K:
+                    r.ok(inst + ': columns 0 .. k-1', func=mf.name, loc=ld.loc)
+                else:
+                    r.fail(inst, func=mf.name, sig=f'row walk over columns [{col0}, {col0} + {T})', loc=ld.loc,
+                           msg=f'the loop at line {ld.line} visits columns {col0} .. {col0 + T}-1 of a matrix row, not 0 .. k-1: the skipped entries keep their '
+                               'un-normalised values in the generator')
+        if nw < 2:
+            r.undecided(f'{fname[1:]}: row walks', msg=f'only {nw} row walks found')
+    for hname, cnt in (('@swap_matrix_rows', 2), ('@col_mult', 3), ('@row_mult', 4), ('@col_mult_and_add', 4), ('@row_mult_and_add', 5)):
+        hf = rsm.functions.get(hname)
+        if hf is None:
+            continue
+        pch = PolyCtx(P, hf)
+        LSh = loops_of(P, hf, pch)
+        inst = f'{hname[1:]}: the loop runs exactly argument {cnt} times from 0'
+        okh = False
+        seen = []
+        for L in LSh:
+            for g_ in [g_ for g_ in L.guards() if g_.block is L.header]:
+                T = L.trip(g_)
+                seen.append(str(T))
+                init, step = L.ivs()[g_.iv]
+                if T is not None and T == Poly.atom(f'arg{cnt}') and init is not None and not isinstance(init, tuple) and init.is_zero():
+                    okh = True
+        if okh:
+            r.ok(inst, func=hf.name, loc=hf.mod.src)
+        else:
+            r.fail(inst, func=hf.name, sig=f'helper loop trips {seen}', loc=hf.mod.src, msg=f'{hname[1:]} iterates {seen} times, expected its count argument (whole row / column)')
+    r.require_min(6)
+
+    ctx.borrow('c18', ['R18b'], 'the GF tables must be complete before any other thread can build a generator from them')
